@@ -155,8 +155,9 @@ def main():
     suf = suffix_fact()
     ap = allpaths_fact()
     text = '''(* GENERATED by tools/gen/gen_gitrefs.py from /repo -- do not edit *)
-From Coq Require Import List NArith String.
-From NB Require Import Base.Json Diff.Codec Sys.GitRefs.
+From Coq Require Import List NArith.
+From NB Require Import Base.Json.
+From NB Require Import Sys.GitRefs.
 Import ListNotations.
 
 Definition src_facts : facts := {|
@@ -164,7 +165,7 @@ Definition src_facts : facts := {|
   f_pushd_finally := %s;
   f_nb_suffix := %s;
   f_allpaths_base := %s |}.
-''' % (saved, coq_bool(fin), coq_str(suf), ap)
+''' % (saved, coq_bool(fin), '[' + '; '.join('%d' % ord(c) for c in suf) + ']%N', ap)
     write_if_changed('GitRefsFacts.v', text)
 
 
